@@ -477,6 +477,12 @@ func (e *Exec) evalGhostBuiltin(st *State, call *ast.CallExpr, name string) Term
 				return v
 			}
 		}
+		if len(e.frames) > 1 {
+			// evaluated at a call site of the function whose contract mentions its own call history
+			if t := e.typeOf(call); t != nil {
+				return e.Ctx.Fresh("lastret_"+sanitize(name), SInt)
+			}
+		}
 		e.unsupported(call.Pos(), "__lastret(%q, %d): no such result", name, i)
 		return Int(0)
 	case "__arg":
